@@ -195,6 +195,46 @@ def rereg_task(t):
     return dict(states=0, transitions=n, executions=n, verdicts={}, refkinds={}, nontrivial=0, sample=[], violations=viols, harness_errors=[], max_depth=0)
 
 
+def inherit_task(t):
+    """B derives from the registered command A and overrides args_definition; uses of A and B in both orders"""
+    pairs = t
+    ns = seams.load()
+    viols = []
+    n = 0
+    ext = T.KNOWN_EXTENSIONS + (EXT,)
+    for k, (da, db) in pairs:
+        for order in ("A-then-B", "B-then-A"):
+            ia, cls_a, entry_a, *_ = build(da, k)
+            ib, cls_b0, entry_b, *_ = build(db, k + 1)
+            cls_b = type(cls_b0.__name__, (cls_a,), {"args_definition": cls_b0.args_definition, **({"extension": EXT} if db[1] else {"extension": None})})
+            tab = dict(T.COMMANDS)
+            tab[ia] = entry_a
+            tab[ib] = entry_b
+
+            def use(defn, ident):
+                role, e, tags, pos = defn
+                w = (("require", '"%s"' % EXT, ";") if e else ())
+                body = (ident,) + tuple(required_syms(pos))
+                return w + ((("if",) + body + ("{", "}")) if role == "test" else (body + (";",)))
+
+            try:
+                ns.commands.add_commands([cls_a, cls_b])
+                seq = [(da, ia), (db, ib)] if order == "A-then-B" else [(db, ib), (da, ia)]
+                for defn, ident in seq + seq:
+                    c = E.execute(use(defn, ident), commands=(tab, ext), want_config=False)
+                    n += 1
+                    for v in E.oracle_c01(c) + E.oracle_c03(c):
+                        v["property"] = "C20"
+                        v["signature"] = ["C20", "derived-class:" + v["signature"][1], v["signature"][2], "custom", order, None, _kinds(da) + " <- " + _kinds(db)]
+                        v["inherit"] = [[da[0], da[1], list(da[2]), list(da[3])], [db[0], db[1], list(db[2]), list(db[3])]]
+                        v["k"] = k
+                        viols.append(v)
+            finally:
+                vars(ns.commands).pop(cls_a.__name__, None)
+                vars(ns.commands).pop(cls_b.__name__, None)
+    return dict(states=0, transitions=n, executions=n, verdicts={}, refkinds={}, nontrivial=0, sample=[], violations=viols, harness_errors=[], max_depth=0)
+
+
 def _kinds(defn):
     return "%s/%s/tags=%s/pos=%s" % (defn[0], "ext" if defn[1] else "noext", "+".join(defn[2]) or "-", "+".join(defn[3]))
 
@@ -264,6 +304,11 @@ def run(tier, seed):
         pairs = pairs[::7]
     chunks = [pairs[i::16] for i in range(16)]
     results += pool.run_tasks("checks.c20:rereg_task", [c for c in chunks if c])
+    ipairs = [(20000 + 2 * i, (a, b)) for i, (a, b) in enumerate(itertools.permutations(small, 2)) if a[0] == b[0] and len(a[3]) != len(b[3])]
+    if tier == "quick":
+        ipairs = ipairs[::5]
+    chunks = [ipairs[i::16] for i in range(16)]
+    results += pool.run_tasks("checks.c20:inherit_task", [c for c in chunks if c])
     cov = dict(states=0, transitions=0, executions=0)
     viols = []
     harness = []
@@ -298,6 +343,10 @@ def run(tier, seed):
 
 
 def replay(payload):
+    if payload.get("inherit"):
+        da, db = [(d[0], d[1], tuple(d[2]), tuple(d[3])) for d in payload["inherit"]]
+        r = inherit_task([(payload.get("k", 20000), (da, db))])
+        return [v for v in r["violations"] if v["signature"][:5] == payload["signature"][:5]]
     if payload.get("rereg"):
         da, db = [(d[0], d[1], tuple(d[2]), tuple(d[3])) for d in payload["rereg"]]
         r = rereg_task([(payload.get("k", 10000), (da, db))])
